@@ -222,6 +222,17 @@ get the help for.
 """
 
 
+class _SeedAction(argparse.Action):
+    """Seed the random generator as soon as '--seed' is parsed
+
+    Graph arguments (gnp, gnm, glrd, plantclique, ...) are built while
+    the rest of the command line is parsed, hence the generator must be
+    seeded before that happens."""
+    def __call__(self, parser, namespace, values, option_string=None):
+        setattr(namespace, self.dest, values)
+        random.seed(values)
+
+
 def setup_command_line_parsers(progname, fhelpers, thelpers):
     """Create the parser for formula and transformation arguments.
 
@@ -315,7 +326,7 @@ def setup_command_line_parsers(progname, fhelpers, thelpers):
                         metavar="<seed>",
                         default=None,
                         type=int,
-                        action='store')
+                        action=_SeedAction)
     g = parser.add_mutually_exclusive_group()
     g.add_argument('--verbose',
                    '-v',
